@@ -81,10 +81,40 @@ def gen_exact(rng: random.Random) -> dict:
     return msg
 
 
+def gen_qflood(rng: random.Random) -> dict:
+    """A query of many short questions that share no suffix (single labels, or each under a domain of its own), spelled with or
+    without the trailing dot, sized around the 1460-octet limit: nothing compresses, so the split falls where the plain sizes say."""
+    stem = rng.choice(['device-', 'n', 'printer-%d-' % rng.randint(0, 9), 'x'])
+    dot = rng.choice(['', '', '.', 'mixed'])
+    per = len(stem) + 3 + 2 + 4
+    n = max(2, (1460 - 12) // per + rng.randint(-4, 8))
+    qs = []
+    for k in range(n):
+        name = '%s%03d' % (stem, k)
+        if rng.random() < 0.3 and dot != 'mixed':
+            name += '.d%03d' % k
+        qs.append({'name': name + ('.' if dot == '.' or (dot == 'mixed' and k % 2) else ''), 'type': rng.choice([1, 28, 12, 255]), 'cls': 1})
+    return {'multicast': rng.random() < 0.7, 'query': True, 'id': rng.choice([0, 4660]), 'now': 0, 'qs': qs, 'an': [], 'ns': [], 'ar': []}
+
+
 def gen_message(rng: random.Random, big: bool = False, allow_long: bool = True) -> dict:
-    """A message description: JSON-able, independent of library objects."""
+    """A message description: JSON-able, independent of library objects.
+    Message-level options read by run_case: `again` (the datagrams are requested that many more times from the same builder: what
+    the library does with the goodbye of unregister_all_services) and `reuse` (every record object has been written before, by
+    another builder, with another TTL, and was then changed in place: what a responder does with the records of a service)."""
+    msg = _gen_message(rng, big, allow_long)
+    if rng.random() < 0.15:
+        msg['again'] = rng.choice([1, 2])
+    if rng.random() < 0.12 and not msg['now']:
+        msg['reuse'] = rng.choice([1, 2, 3])
+    return msg
+
+
+def _gen_message(rng: random.Random, big: bool = False, allow_long: bool = True) -> dict:
     if rng.random() < 0.03:
         return gen_exact(rng)
+    if rng.random() < 0.02:
+        return gen_qflood(rng)
     allow_long = allow_long and rng.random() < 0.12       # labels over 63 bytes only in some messages
     suffixes: List[str] = []
     for _ in range(rng.choice([1, 2, 3])):
@@ -289,16 +319,39 @@ def run_case(cid: str, msg: dict) -> dict:
     case: Dict[str, Any] = {'id': cid, 'query': msg['query'], 'multicast': multicast, 'mid': msg['id'], 'inp': inp,
                             'longLabel': long_label, 'pkts': [], 'out': 'ok'}
     out = DNSOutgoing(flags, multicast, msg['id'])
+    reuse = msg.get('reuse', 0)
+
+    def obj(r: dict, k: int) -> Any:
+        if not reuse:
+            return make_record(r)
+        # the object was written before with another TTL, which was then changed in place through the public API
+        first = dict(r, ttl=[4500, 120, 0, 75][(k + reuse) % 4])
+        rec = make_record(first)
+        try:
+            prev = DNSOutgoing(0x8400, True, 0)
+            prev.add_answer_at_time(rec, 0)
+            prev.packets()
+        except NamePartTooLongException:
+            pass
+        if (k + reuse) % 3 == 0:
+            rec.ttl = r['ttl']
+        elif (k + reuse) % 3 == 1:
+            rec.set_created_ttl(rec.created, r['ttl'])
+        else:
+            rec.reset_ttl(make_record(r))
+        return rec
     try:
         for q in msg['qs']:
             out.add_question(DNSQuestion(q['name'], q['type'], q['cls']))
-        for r in msg['an']:
-            out.add_answer_at_time(make_record(r), 1000000.0 if msg['now'] else 0)
-        for r in msg['ns']:
-            out.add_authorative_answer(make_record(r))
-        for r in msg['ar']:
-            out.add_additional_answer(make_record(r))
+        for k, r in enumerate(msg['an']):
+            out.add_answer_at_time(obj(r, k), 1000000.0 if msg['now'] else 0)
+        for k, r in enumerate(msg['ns']):
+            out.add_authorative_answer(obj(r, k + 1))
+        for k, r in enumerate(msg['ar']):
+            out.add_additional_answer(obj(r, k + 2))
         packets = out.packets()
+        for _ in range(msg.get('again', 0)):
+            packets = out.packets()
     except NamePartTooLongException:
         case['out'] = 'NamePartTooLong'
         return case
